@@ -685,6 +685,27 @@ MatchVerdict(ev) ==
       cov |-> (IF dl /\ n <= 5 THEN {IF sing THEN "C17.structurally_singular" ELSE "C17.matching_checked"} ELSE {})]
 
 (***************************************************************************)
+(* File readers (C16): the returned compressed-column matrix is exactly the *)
+(* matrix written in the file (symmetric storage expanded), 0-based, inside *)
+(* the arrays the reader allocated.                                         *)
+(***************************************************************************)
+ReaderVerdict(ev) ==
+  LET n == ev.expect_n
+      want == {<<ev.expect[t][1], ev.expect[t][2], ev.expect[t][3]>> : t \in 1..Len(ev.expect)}
+      shape == Has(ev, "colptr") /\ ev.m = n /\ ev.n = n /\ Len(ev.colptr) = n + 1 /\ ev.colptr[1] = 0
+               /\ (\A j \in 1..n : ev.colptr[j] <= ev.colptr[j + 1]) /\ ev.colptr[n + 1] = ev.nnz
+               /\ Len(ev.rowind) = ev.nnz /\ Len(ev.nzval) = ev.nnz
+      gotOf(j) == {<<ev.rowind[q + 1], ev.nzval[q + 1]>> : q \in ev.colptr[j + 1]..(ev.colptr[j + 2] - 1)}
+      bad == IF ~Has(ev, "expect") THEN {}
+             ELSE IF ~shape THEN {"C16.dimensions_or_pointers"}
+             ELSE (IF ev.nnz # Cardinality(want) THEN {"C16.nonzero_count"} ELSE {})
+                  \cup (IF \E j \in 0..(n - 1) : \E e \in gotOf(j) : e[1] < 0 \/ e[1] >= n THEN {"C16.index_out_of_range"} ELSE {})
+                  \cup (IF \E j \in 0..(n - 1) : gotOf(j) # {<<w[1], w[3]>> : w \in {x \in want : x[2] = j}} THEN {"C16.pattern_or_values_differ"} ELSE {})
+                  \cup (IF \E j \in 0..(n - 1) : Cardinality(gotOf(j)) # ev.colptr[j + 2] - ev.colptr[j + 1] THEN {"C16.duplicate_entries"} ELSE {})
+                  \cup (IF ev.alloc.nzval < ev.nnz \/ ev.alloc.rowind < ev.nnz \/ ev.alloc.colptr < n + 1 THEN {"C16.arrays_shorter_than_content"} ELSE {})
+  IN [bad |-> bad \cup LedgerCls(ev, "_read_" \o ev.fmt), arb |-> {}, cov |-> {"C16.read_" \o ev.fmt}]
+
+(***************************************************************************)
 (* Rejected calls (C18): the routine reports the position SluScreen!Screen  *)
 (* computes from the violated preconditions, every caller object is byte-   *)
 (* identical and no allocation is retained.                                 *)
@@ -711,6 +732,7 @@ Verdict(ev, pm, sc) ==
         [] ev.fn = "lacon" -> LaconVerdict(ev)
         [] ev.fn = "order" -> OrderVerdict(ev, sc)
         [] ev.fn = "ldperm" -> MatchVerdict(ev)
+        [] ev.fn = "read" -> ReaderVerdict(ev)
         [] ev.fn = "trsv" -> TrsvVerdict(ev)
         [] ev.fn = "gemv" -> GemvVerdict(ev)
         [] ev.fn = "gemm" -> GemmVerdict(ev)
